@@ -76,6 +76,30 @@ var cmechs = []cmech{
 	{id: "ptrToLocal", setup: []cline{cl("var loc string"), cl("p := &loc")}, params: "p *string", args: "p",
 		write: func(x string) []cline { return []cline{cacc("*p = "+x, "p", true)} },
 		read:  func(y string) []cline { return []cline{cacc(y+" = *p", "p", false)} }},
+	// the shared object is written / read inside a callee that receives it as an EXPLICIT pointer argument; the callee is
+	// reached through an interface method, a static function, a function value, a pointer-receiver method
+	{id: "setterIface", decls: []cline{cl("type Lab interface {"), cl("\tSet(o *O, s string)"), cl("\tGet(o *O) string"), cl("}"), cl("type lab struct{}"),
+		cl("func (lab) Set(o *O, s string) {"), cacc("\to.F = s", "&o.F", true), cl("}"),
+		cl("func (lab) Get(o *O) string {"), cacc("\tr := o.F", "&o.F", false), cl("\treturn r"), cl("}")},
+		setup: []cline{cl("p := &O{}"), cl("var l Lab = lab{}")}, params: "p *O, l Lab", args: "p, l",
+		write: func(x string) []cline { return []cline{cl("l.Set(p, " + x + ")")} },
+		read:  func(y string) []cline { return []cline{cl(y + " = l.Get(p)")} }},
+	{id: "setterStatic", decls: []cline{cl("func setO(o *O, s string) {"), cacc("\to.F = s", "&o.F", true), cl("}"),
+		cl("func getO(o *O) string {"), cacc("\tr := o.F", "&o.F", false), cl("\treturn r"), cl("}")},
+		setup: []cline{cl("p := &O{}")}, params: "p *O", args: "p",
+		write: func(x string) []cline { return []cline{cl("setO(p, " + x + ")")} },
+		read:  func(y string) []cline { return []cline{cl(y + " = getO(p)")} }},
+	{id: "setterFnValue", decls: []cline{cl("func setO(o *O, s string) {"), cacc("\to.F = s", "&o.F", true), cl("}"),
+		cl("func setG(o *O, s string) {"), cacc("\to.G = s", "&o.G", true), cl("}"),
+		cl("func getO(o *O) string {"), cacc("\tr := o.F", "&o.F", false), cl("\treturn r"), cl("}")},
+		setup: []cline{cl("p := &O{}"), cl("set := setG"), cl("if !rt.Cond() {"), cl("\tset = setO"), cl("}")}, params: "p *O, set func(*O, string)", args: "p, set",
+		write: func(x string) []cline { return []cline{cl("set(p, " + x + ")")} },
+		read:  func(y string) []cline { return []cline{cl(y + " = getO(p)")} }},
+	{id: "setterMethodPtr", decls: []cline{cl("type K struct{ n int }"), cl("func (k *K) Set(o *O, s string) {"), cacc("\to.F = s", "&o.F", true), cl("}"),
+		cl("func (k *K) Get(o *O) string {"), cacc("\tr := o.F", "&o.F", false), cl("\treturn r"), cl("}")},
+		setup: []cline{cl("p := &O{}"), cl("k := &K{}")}, params: "p *O, k *K", args: "p, k",
+		write: func(x string) []cline { return []cline{cl("k.Set(p, " + x + ")")} },
+		read:  func(y string) []cline { return []cline{cl(y + " = k.Get(p)")} }},
 }
 
 // ConcPlacements: who writes and who reads.
